@@ -1,0 +1,40 @@
+//go:build verif
+
+package submitter
+
+// This file is compiled only with the build tag `verif`. It adds no behaviour to the daemon: it
+// exposes one iteration of the submitter loop so that an external harness, which supplies the RPC
+// client / querier interfaces taken by New, can script the broadcast outcome.
+
+// VerifStartOne is the body of the loop in Start for exactly one submission: it takes the next
+// submission from the channel and an idle key, and runs submitPrice in its own goroutine. The
+// returned channel is closed when submitPrice has returned.
+func (s *Submitter) VerifStartOne() <-chan struct{} {
+	done := make(chan struct{})
+
+	priceSubmission := <-s.submitSignalPriceCh
+	keyID := <-s.idleKeyIDChannel
+	go func(sps SignalPriceSubmission, kid string) {
+		defer close(done)
+		s.submitPrice(sps, kid)
+	}(priceSubmission, keyID)
+
+	return done
+}
+
+// VerifIdleKeys returns the number of keys that are not in use by a submission.
+func (s *Submitter) VerifIdleKeys() int {
+	return len(s.idleKeyIDChannel)
+}
+
+// VerifPending returns the signal ids currently marked as pending.
+func (s *Submitter) VerifPending() []string {
+	var out []string
+	s.pendingSignalIDs.Range(func(k, _ any) bool {
+		if id, ok := k.(string); ok {
+			out = append(out, id)
+		}
+		return true
+	})
+	return out
+}
